@@ -595,6 +595,13 @@ func replayCheck(t *testing.T, prop, check, path string, fn func(c *Case)) {
 func runEnum(t *testing.T, prop, check, rule string, maxDepth, limit int, fn func(c *Case)) (int, bool) {
 	t.Helper()
 
+	return runEnumPrefix(t, prop, check, rule, nil, maxDepth, limit, fn)
+}
+
+// runEnumPrefix is runEnum with the first choices forced to prefix (not enumerated).
+func runEnumPrefix(t *testing.T, prop, check, rule string, prefix []int, maxDepth, limit int, fn func(c *Case)) (int, bool) {
+	t.Helper()
+
 	if path := os.Getenv("VERIF_REPLAY"); path != "" {
 		replayCheck(t, prop, check, path, fn)
 
@@ -610,7 +617,12 @@ func runEnum(t *testing.T, prop, check, rule string, maxDepth, limit int, fn fun
 			return n, false
 		}
 
-		c := newCase(prop, check, e, t, nil)
+		var ch Chooser = e
+		if len(prefix) > 0 {
+			ch = &prefixChooser{prefix: prefix, inner: e}
+		}
+
+		c := newCase(prop, check, ch, t, nil)
 		runCase(c, fn)
 		st.record(c)
 		n++
@@ -621,9 +633,11 @@ func runEnum(t *testing.T, prop, check, rule string, maxDepth, limit int, fn fun
 		}
 	}
 
-	st.mu.Lock()
-	st.Exhaustive = true
-	st.mu.Unlock()
+	if len(prefix) == 0 {
+		st.mu.Lock()
+		st.Exhaustive = true
+		st.mu.Unlock()
+	}
 
 	return n, true
 }
